@@ -138,7 +138,7 @@ def _isinstance_facts(test: ast.AST, self_names: Dict[str, str]) -> Set[Tuple[st
     return out
 
 
-@rule("E14", "SHORTCUT-AGREE: the hoisting pass binds a function straight to the assignment target exactly when the assignment prints the call instead of `:=`", ["C05"], floor=1, soft=True)
+@rule("E14", "SHORTCUT-AGREE: the hoisting pass binds a function straight to the assignment target exactly when the assignment prints the call instead of `:=`", ["C05", "C01", "C03"], floor=1, soft=True)
 def e14(ctx: Ctx):
     py = pyfacts(ctx)
     pv = py.cls("BasicFunctionalExpressionPatcherVisitor").methods.get("visit_statement")
